@@ -584,6 +584,103 @@ def rule_N1b(ctx, rule: str = "N1") -> None:
         ctx.inconclusive(rule, name, f"loop condition `{ast.unparse(lp.test)}` not in a recognised form", mod.loc(lp))
 
 
+def _spec_varint(v: int) -> bytes:
+    """the base-128 encoding of v as a 64-bit two's complement number (the protobuf encoding rules, written out here)"""
+    if v < 0:
+        v += 1 << 64
+    out = bytearray()
+    while True:
+        b = v & 0x7F
+        v >>= 7
+        if v:
+            out.append(b | 0x80)
+        else:
+            out.append(b)
+            return bytes(out)
+
+
+def rule_N8(ctx, rule: str = "N8") -> None:
+    """the varint writer at the boundary values of every 7-bit group and of every fast path it may have: constant propagation
+    (E2 with the value bound to a constant, loops executed on constants) must produce exactly the bytes the encoding rules give.
+    Decides the listed values only - a range-restricted special case with a wrong constant shows up at its range's ends."""
+    mod = ctx.repo.mod(M_INIT)
+    w = varint_writer(mod)
+    ctx.analysed(w.name)
+    vparam = w.args.args[0].arg
+    # boundary values: around every power of two, plus every integer constant the writer compares the value with
+    vals = set()
+    for k in range(0, 65):
+        for d in (-1, 0, 1):
+            for sgn in (1, -1):
+                vals.add(sgn * (1 << k) + d)
+    for n in ast.walk(w):
+        if isinstance(n, ast.Compare):
+            for e in [n.left] + n.comparators:
+                try:
+                    c = fold(e, mod.consts)
+                except _Unfoldable:
+                    continue
+                if isinstance(c, int) and not isinstance(c, bool):
+                    vals |= {c - 1, c, c + 1}
+    vals = sorted(v for v in vals if -(1 << 63) <= v < (1 << 64))
+    bad = None
+    undecided = 0
+    decided = 0
+    for v in vals:
+        try:
+            paths = Interp(mod, bindings={N(vparam): v}, concrete_while=True).run(w)
+        except AnalysisError:
+            undecided += 1
+            continue
+        ctx.count(len(paths))
+        if len(paths) != 1 or paths[0].valuation:
+            undecided += 1
+            continue
+        p = paths[0]
+        if p.outcome == "raise":
+            bad = bad or (v, "raises " + (dotted(p.value[1]) if p.value and p.value[0] == "call" else "?"))
+            continue
+        out = b""
+        ok = True
+        for e in p.events:
+            piece = None
+            if e.kind == "call" and e.data[1][0] == "a" and e.data[1][2] == "write" and len(e.data[2]) == 1:
+                piece = e.data[2][0]
+                if not (piece[0] == "c" and isinstance(piece[1], (bytes, bytearray))):
+                    ok = False
+                    break
+                out += bytes(piece[1])
+            elif e.kind == "call" and e.data[1][0] == "a" and e.data[1][2] == "append" and len(e.data[2]) == 1 and (e.data[1][1][0] == "n" or (e.data[1][1][0] == "call" and dotted(e.data[1][1][1]) in ("bytearray", "list"))):
+                piece = e.data[2][0]
+                if not (piece[0] == "c" and isinstance(piece[1], int) and 0 <= piece[1] < 256):
+                    ok = False
+                    break
+                out += bytes([piece[1]])
+            elif e.kind == "yield":
+                piece = e.data
+                if not (piece is not None and piece[0] == "c" and isinstance(piece[1], int) and 0 <= piece[1] < 256):
+                    ok = False
+                    break
+                out += bytes([piece[1]])
+            elif e.kind == "aug" and e.data[1] == "+" and e.data[0][0] == "n" and e.data[2][0] == "c" and isinstance(e.data[2][1], (bytes, bytearray)):
+                out += bytes(e.data[2][1])
+        if not ok or not out:
+            undecided += 1
+            continue
+        decided += 1
+        want = _spec_varint(v)
+        if out != want and bad is None:
+            bad = (v, f"writes {out.hex()}, the encoding is {want.hex()}")
+    name = f"{w.name}:boundary-values"
+    if bad:
+        ctx.refuted(rule, name, f"{bad[0]}", mod.loc(w), f"for the value {bad[0]} the varint writer {bad[1]} (64-bit two's complement, 7-bit groups, low group first)",
+                    f"encode_varint({bad[0]})")
+    elif decided < 100:
+        ctx.inconclusive(rule, name, f"only {decided} of {len(vals)} boundary values propagate to constant bytes", mod.loc(w))
+    else:
+        ctx.proved(rule, name, mod.loc(w), f"{decided} boundary values ({undecided} not decided)")
+
+
 def rule_N2(ctx, rule: str = "N2") -> None:
     """bounded decode: at most 10 bytes accepted, the bound test precedes the read"""
     mod = ctx.repo.mod(M_INIT)
